@@ -495,10 +495,11 @@ deriving DecidableEq, Repr
 def Sess.clean (s : Sess) : Sess × List Call :=
   ({ s with mfKey := 0, mfClean := some 0, delivery := false, dErr := false }, [Call.relMsg s.ip s.mfKey])
 
-/-- `Session.Reset` (called by go-smtp's `reset`) followed by go-smtp clearing its own state. -/
+/-- `Session.Reset` (called by go-smtp's `reset`) followed by go-smtp clearing its own state.  Since fix
+6740f8c `Reset` forgets the kept failure of a deferred MAIL whether or not a delivery is open. -/
 def Sess.reset (s : Sess) : Sess × List Call :=
   let r := if s.delivery then s.clean else (s, [])
-  ({ r.1 with fromRecv := false, rcpts := 0 }, r.2)
+  ({ r.1 with fromRecv := false, rcpts := 0, dErr := false }, r.2)
 
 /-- `startDelivery(from)`: `takeOk` is the result of `TakeMsg`, `startOk` that of `pipeline.Start`.
 Returns the session, the Group calls made, and whether the delivery was started. -/
@@ -517,7 +518,7 @@ def Sess.op (s : Sess) (takeOk : Bool) : SessOp → Sess × List Call
     else if !s.deferred then
       let r := s.startDelivery clean takeOk startOk
       if r.2.2 then ({ r.1 with fromRecv := true }, r.2.1) else (r.1, r.2.1)
-    else ({ s with mfKey := raw, mfClean := clean, fromRecv := true }, [])
+    else ({ s with mfKey := raw, mfClean := clean, fromRecv := true, dErr := false }, [])   -- fix 6740f8c: a new MAIL forgets the kept failure
   | .rcpt startOk =>
     if !s.fromRecv then (s, [])                      -- go-smtp: 502 missing MAIL
     else if !s.delivery then
